@@ -136,7 +136,7 @@ def _emit(groups):
     return res
 
 
-@rule("QUANT-LOWER", ["C20", "C01"], floor=12)
+@rule("QUANT-LOWER", ["C20", "C01", "C06", "C08"], floor=12)
 def quant_lower(ctx):
     """piece(): the (min,max) handed to a repetition operator are those of the quantifier just read
     (? 0,1  * 0,inf  + 1,inf  {n,m} n,m); a nullable body may lower min to 0 but never drop a finite max;
@@ -164,6 +164,10 @@ def quant_lower(ctx):
             okmin = mn == mm[0] or (pp.nullable and mn == "0")
             okmax = mx == mm[1] or (pp.q == "+" and mx == "MAX")
             _group(g, key, okmin and okmax, "quantifier '%s' over a %s body is lowered to bounds (%s, %s); the quantifier read prescribes (%s, %s)%s" % (pp.q, "nullable" if pp.nullable else "non-nullable", mn, mx, mm[0], mm[1], " (a consumed finite upper bound may not be dropped: r{n,m} is not r*)" if not okmax else ""), loc)
+            if pp.q == "{" and pp.nullable:
+                # an operand that can match nothing must not be iterated a pattern-controlled number of times: every
+                # further mandatory iteration is a zero-width one, and the repeat operators perform them one by one
+                _group(g, "nullable-count-not-iterated", mn == "0", "a counted quantifier over a nullable body keeps its minimum (%s): the operators then perform that many zero-width iterations - '(?:a?){18446744073709551615}' does not return" % mn, loc)
             # operator choice
             key = "operator|len=%s" % ("var" if pp.ml is False else "fixed")
             if pp.ml is False:
@@ -191,10 +195,13 @@ def quant_lower(ctx):
     for need in ("nothing|max=0", "identity|{1,1}", "plain|no-quantifier"):
         if need not in g:
             g[need] = [False, "piece() has no path for the case %s" % need, b.loc()]
-    return _emit(g)
+    out = _emit(g)
+    for i_ in out:
+        i_.props = ["C06", "C01", "C20"] if i_.key == "nullable-count-not-iterated" else ["C20", "C01", "C08"]
+    return out
 
 
-@rule("ZERO-WIDTH-NOTHING", ["C12", "C20", "C01"], floor=3)
+@rule("ZERO-WIDTH-NOTHING", ["C12", "C20", "C01", "C08"], floor=3)
 def zero_width_nothing(ctx):
     """An operand may be replaced by Nothing only when max=0, for a quantified anchor whose quantifier allows zero
     occurrences, or for a zero-length body whose quantifier allows zero occurrences; with min>=1 a zero-width
@@ -222,7 +229,7 @@ def zero_width_nothing(ctx):
     return _emit(g)
 
 
-@rule("QUANT-ANCHOR", ["C12"], floor=4)
+@rule("QUANT-ANCHOR", ["C12", "C08", "C01", "C20"], floor=4)
 def quant_anchor(ctx):
     """A quantified ^ or $: if the quantifier allows zero occurrences the result is Nothing, otherwise the anchor itself."""
     pps = piece_paths(ctx)
